@@ -21,7 +21,7 @@ class Check(PropertyCheck):
     ]
 
     def rule(self):
-        return ("inputs (random diagrams, bundled blocks, tags in boxes) x pairs of scales from {0.5,1,3,8,10,20,37.5}; "
+        return ("inputs (random diagrams, bundled blocks, tags in boxes, boxes nested 2..4 deep with content at every level) x pairs of scales from {0.5,1,3,8,10,20,37.5}; "
                 "oracle: element multiset of svg(scale s2) = that of svg(scale s1) with every length multiplied by "
                 "s2/s1; non-trivial = non-empty drawing, distinct by input")
 
@@ -32,6 +32,12 @@ class Check(PropertyCheck):
             w = self.rng.range(3, 12)
             tag = "{" + self.rng.choice(["a", "b1", "a,b"]) + "}"
             out.append(gen.box(w + len(tag), 1, inner=[" " * self.rng.below(w) + tag]))
+        for _ in range(n // 8):
+            # shapes inside shapes inside shapes, with labels / tags / small drawings at every level
+            depth = self.rng.range(2, 4)
+            lv = [[self.rng.choice(["hi", "{a}", "*->", "o-", "ab cd", "", "+-+"])] for _ in range(depth)]
+            out.append(gen.place(gen.nested_boxes(lv, corners=self.rng.choice(["++++", "..''"])),
+                                 self.rng.below(4), self.rng.below(3)))
         return out
 
     def correspondence(self):
